@@ -1,0 +1,94 @@
+//! Observation hooks for external runtime monitors. Compiled only with the `verif` feature, which
+//! nothing in this repository enables. The hooks are read-only: they hand snapshots of runtime
+//! state to a thread-local observer and never influence scheduling.
+use crate::runtime::task::TaskId;
+use std::cell::RefCell;
+
+/// Scheduling state of one task as seen by the runtime.
+#[derive(Clone, Copy, Debug, PartialEq, Eq)]
+pub enum TaskStateView {
+    Runnable,
+    Blocked { allow_spurious_wakeups: bool },
+    Sleeping,
+    Finished,
+}
+
+/// One row of the runtime's task table.
+#[derive(Clone, Debug, PartialEq, Eq)]
+pub struct TaskView {
+    pub id: TaskId,
+    pub state: TaskStateView,
+    pub detached: bool,
+}
+
+/// What the runtime decided at a scheduling point.
+#[derive(Clone, Copy, Debug, PartialEq, Eq)]
+pub enum DecisionView {
+    /// The scheduler was consulted and returned this task
+    Task(TaskId),
+    /// The scheduler was consulted and returned `None`, or a continue-after step bound was hit
+    Stopped,
+    /// The runtime found nothing (relevant) left to run without consulting the scheduler
+    Finished,
+    /// A failing step bound was hit; the scheduler was not consulted
+    StepBoundExceeded,
+}
+
+#[derive(Clone, Debug)]
+pub enum Event {
+    /// Emitted once per call of the runtime's scheduling routine that reaches a verdict.
+    Decision {
+        tasks: Vec<TaskView>,
+        offered: Vec<TaskId>,
+        consulted_scheduler: bool,
+        current: Option<TaskId>,
+        is_yielding: bool,
+        decision: DecisionView,
+        schedule_len: usize,
+        steps_reset_at: usize,
+    },
+    /// `ExecutionState::request_yield` was called by this task
+    YieldRequest(TaskId),
+    /// Emitted after `ExecutionState::cleanup` with what is left behind
+    ExecutionEnd {
+        labels: usize,
+        tags: usize,
+        storage_slots_left: usize,
+        pooled_continuations: usize,
+    },
+}
+
+thread_local! {
+    #[allow(clippy::type_complexity)]
+    static OBSERVER: RefCell<Option<Box<dyn FnMut(&Event)>>> = const { RefCell::new(None) };
+}
+
+/// Install (or remove) the observer for the current OS thread. The observer must not call back
+/// into Shuttle.
+pub fn set_observer(observer: Option<Box<dyn FnMut(&Event)>>) {
+    OBSERVER.with(|o| *o.borrow_mut() = observer);
+}
+
+pub fn observing() -> bool {
+    OBSERVER.with(|o| o.try_borrow().map(|o| o.is_some()).unwrap_or(false))
+}
+
+pub(crate) fn emit(event: impl FnOnce() -> Event) {
+    OBSERVER.with(|o| {
+        if let Ok(mut o) = o.try_borrow_mut() {
+            if let Some(f) = o.as_mut() {
+                f(&event());
+            }
+        }
+    });
+}
+
+/// Read-only view of a `BatchSemaphore`'s internal state.
+#[derive(Clone, Debug, PartialEq, Eq)]
+pub struct SemaphoreView {
+    pub available: usize,
+    pub permit_batches_sum: Option<usize>,
+    pub closed: bool,
+    /// (task, num_permits, is_queued, has_permits) for every queued waiter, front first
+    pub waiters: Vec<(TaskId, usize, bool, bool)>,
+}
